@@ -68,6 +68,17 @@ class NoneV(Val):
         return "NoneV"
 
 
+class Opt(Val):
+    """`None` when `none_if` holds, `val` otherwise (a function that returns None as a sentinel on some path)."""
+
+    def __init__(self, none_if, val):
+        self.none_if = none_if
+        self.val = val
+
+    def __repr__(self):
+        return f"Opt({self.val!r})"
+
+
 class StrV(Val):
     def __init__(self, s):
         self.s = s
@@ -242,6 +253,8 @@ class Alt(Val):
 
 def generic_elem(v: Val) -> Expr:
     """Expression for an arbitrary element of v."""
+    if isinstance(v, Opt):
+        return generic_elem(v.val)
     if isinstance(v, Sc):
         return v.e
     if isinstance(v, Arr):
